@@ -213,7 +213,7 @@ def run_event(w, ds, conv, e: dict) -> dict:
         if a == "ExtractDF":
             e["expectcols"] = ["lat", "lon", "pid"]
     elif a == "Export":
-        e["obs"] = outcome(lambda: export_features(w, ds, e["fmt"], e["path"]))
+        e["obs"] = outcome(lambda: export_features(w, ds, e["fmt"], e["path"], e.get("via", "library")))
     elif a == "PolyCollection":
         e["obs"] = outcome(lambda: poly_collection(w, ds, conv, e))
     elif a == "Quiver":
@@ -230,12 +230,35 @@ def ring_q(coords) -> list:
     return pts
 
 
-def export_features(w, ds, fmt: str, path: str) -> dict:
+def _cli_export(ds, fmt: str, path: str):
+    """the same export through the command line entry point: the dataset is written to a netCDF file first (with whatever
+    on-disk encoding its variables carry) and `emsarray export-geometry` reads that file"""
+    import os
+
+    import emsarray.cli
+    inp = os.path.join(os.path.dirname(path), "cli-input.nc")
+    ds.to_netcdf(inp)
+    try:
+        emsarray.cli.main(["-q", "export-geometry", inp, path, "-f", fmt])
+    except SystemExit as ex:
+        if ex.code not in (0, None):
+            raise RuntimeError(f"export-geometry exited with {ex.code}")
+    finally:
+        os.unlink(inp)
+
+
+def export_features(w, ds, fmt: str, path: str, via: str = "library") -> dict:
     """Write with emsarray, read back with an independent reader; features in file order."""
     import json
     import os
     from emsarray.operations import geometry
     os.makedirs(os.path.dirname(path), exist_ok=True)
+    if via == "cli":
+        class geometry:      # noqa: F811  (same four writers, reached through the command line)
+            write_geojson = staticmethod(lambda d, p_: _cli_export(d, "geojson", p_))
+            write_shapefile = staticmethod(lambda d, p_: _cli_export(d, "shapefile", p_))
+            write_wkt = staticmethod(lambda d, p_: _cli_export(d, "wkt", p_))
+            write_wkb = staticmethod(lambda d, p_: _cli_export(d, "wkb", p_))
     feats = []
     if fmt == "geojson":
         geometry.write_geojson(ds, path)
